@@ -44,7 +44,9 @@ def cases(draw, big=False):
             'wseed': draw(st.integers(0, 50)), 'aseed': draw(st.integers(0, 200)),
             'temperature': round(math.exp(t), 4),
             # Gumbel sampling configured (it must not matter in eval mode)
-            'gumbel': draw(st.booleans())}
+            'gumbel': draw(st.booleans()),
+            # another assignment was evaluated (eval forward + cost read) before this one
+            'prior': draw(st.booleans())}
 
 
 def mps_alive(spec, summ, res):
@@ -108,6 +110,9 @@ def oracle(case) -> Result:
                            temperature=case['temperature'],
                            hard_softmax=(case['mode'] == 'train-hard'),
                            gumbel_softmax=bool(case.get('gumbel')) and case['mode'] == 'eval')
+    if case.get('prior'):
+        mu.earlier_assignment(mps, x0, case['aseed'])
+        res.ev('earlier-assignment-evaluated-first')
     mu.set_coefficients(mps, case['aseed'])
     if case['mode'] == 'eval':
         mps.eval()
